@@ -206,6 +206,17 @@ def run(ctx):
             fn_ = rng.choice(["least", "greatest"])
             exprs += [("fn", fn_, [base_, ("num", a1)]), ("fn", fn_, [base_, ("num", a2)])]
         if rng.random() < 0.3:
+            # two columns (and one column containing both) that differ only in the SIGN of a number: `size * 2` and `size * -2`
+            op_ = rng.choice(["+", "-", "*", "/", "%"])
+            base_ = rng.choice([("col", "size"), ("col", "hardlinks"), ("len",)])
+            n_ = rng.choice([1, 2, 3, 7])
+            pos_, neg_ = ("bin", op_, base_, ("num", n_)), ("bin", op_, base_, ("neg", ("num", n_)))
+            pair = [pos_, neg_] if rng.random() < 0.5 else [neg_, pos_]
+            exprs += pair + [("bin", "+", pair[0], pair[1])]
+            if rng.random() < 0.5:
+                fn_ = rng.choice(["least", "greatest"])
+                exprs += [("fn", fn_, [base_, ("num", n_)]), ("fn", fn_, [base_, ("neg", ("num", n_))])]
+        if rng.random() < 0.3:
             # a quoted literal as a column of its own, spelling the cache key of a neighbour (a column's Display name, an expression's Display text)
             exprs.insert(rng.randrange(len(exprs) + 1), ("str", rng.choice(["Size", "Name", "Hardlinks", "size", "(Size + 1)", "Length(Name)", "-Size", "abc", "7", "(Size - (4 - 1))"])))
         texts = [render(e, rng) for e in exprs]
@@ -378,7 +389,7 @@ def run(ctx):
     replay_generic_known(ctx, 'C15')
     ctx.coverage.update(
         evaluations=st["evaluations"], distinct_nontrivial=len(st["distinct"]), traces_validated_against_impl=st["agreed"],
-        rule="arithmetic expressions to depth 4 over integer literals, size, hardlinks, length(name), unary minus on literals/columns/calls, operators + - * / % and their word aliases, minimal and redundant brackets in both styles x select lists of 1-5 expressions (deliberately including pairs that differ only in the operator or in the bracket placement) on a tree with sizes 0, 7, 10, 1000, 4097, 2^33+1: every column must equal the binary64 value of its own expression (precedence, left associativity, brackets, unary minus), must be the same when selected alone, and must equal the model pipeline (Lexer -> Parser -> Eval with the regenerated operator table); WHERE on an expression returns exactly the entries whose value satisfies it, also when the same expression (or one of its operands) occurs in two comparisons joined by AND / OR or written as BETWEEN / NOT BETWEEN. non-trivial = a select list of at least two expressions",
+        rule="arithmetic expressions to depth 4 over integer literals, size, hardlinks, length(name), unary minus on literals/columns/calls, operators + - * / % and their word aliases, minimal and redundant brackets in both styles x select lists of 1-5 expressions (deliberately including pairs that differ only in the operator, in the bracket placement, in a later function argument or in the sign of a number) on a tree with sizes 0, 7, 10, 1000, 4097, 2^33+1: every column must equal the binary64 value of its own expression (precedence, left associativity, brackets, unary minus), must be the same when selected alone, and must equal the model pipeline (Lexer -> Parser -> Eval with the regenerated operator table); WHERE on an expression returns exactly the entries whose value satisfies it, also when the same expression (or one of its operands) occurs in two comparisons joined by AND / OR or written as BETWEEN / NOT BETWEEN. non-trivial = a select list of at least two expressions",
         samples=st["samples"], distribution=dict(st["hist"]))
     return ctx.finish(trusted=["binary64 arithmetic: Python floats (oracle) and Coq primitive floats (model) are IEEE 754 like Rust's f64; f64 `%` is C fmod, computed exactly in the model (lib/F64.fmod) and by math.fmod in the oracle",
                                "Rust's float Display is reproduced by lib/F64.show_f64 (validated against the real code) and by the oracle's positional shortest repr"])
